@@ -260,3 +260,97 @@ package ledger
 
 //@ assumed func (r NumscriptRuntime) Execute(ctx context.Context, store Store, vars map[string]string) (res *NumscriptExecutionResult, err error)
 //@   ensures err == nil ==> res != nil
+
+// ---- controller_with_events.go (C31) -------------------------------------------------------------
+// published counts invocations of event callbacks. hasTx must mirror "the underlying controller's handle is
+// inside an open SQL transaction": then no callback runs before the transaction commits.
+
+//@ ghost published int
+
+//@ func (c *ControllerWithEvents) handleEvent(ctx context.Context, fn func())
+//@   property C31
+//@   modifies c, published
+//@   ensures !old(c.hasTx) ==> published == old(published) + 1 && len(c.atCommit) == len(old(c.atCommit))
+//@   ensures old(c.hasTx) ==> published == old(published)
+//@   ensures old(c.hasTx) && !(old(c.parent) != nil && old(c.parent).hasTx) ==> len(c.atCommit) == len(old(c.atCommit)) + 1 && c.atCommit[len(old(c.atCommit))] == fn
+//@   ensures c.hasTx == old(c.hasTx) && c.parent == old(c.parent) && c.Controller == old(c.Controller) && c.listener == old(c.listener)
+//@   fnparam fn() ():
+//@     modifies published
+//@     ensures published == old(published) + 1
+
+//@ func (c *ControllerWithEvents) CreateTransaction(ctx context.Context, parameters Parameters[CreateTransaction]) (log *ledger.Log, ret *ledger.CreatedTransaction, hit bool, err error)
+//@   property C31
+//@   modifies c, published
+//@   ensures err != nil || parameters.DryRun ==> published == old(published) && len(c.atCommit) == len(old(c.atCommit))
+//@   ensures err == nil && !parameters.DryRun ==> published == old(published) + (old(c.hasTx) ? 0 : 1)
+//@   ensures c.hasTx == old(c.hasTx)
+
+//@ func (c *ControllerWithEvents) RevertTransaction(ctx context.Context, parameters Parameters[RevertTransaction]) (log *ledger.Log, ret *ledger.RevertedTransaction, hit bool, err error)
+//@   property C31
+//@   modifies c, published
+//@   ensures err != nil || parameters.DryRun ==> published == old(published) && len(c.atCommit) == len(old(c.atCommit))
+//@   ensures err == nil && !parameters.DryRun ==> published == old(published) + (old(c.hasTx) ? 0 : 1)
+//@   ensures c.hasTx == old(c.hasTx)
+
+//@ func (c *ControllerWithEvents) SaveTransactionMetadata(ctx context.Context, parameters Parameters[SaveTransactionMetadata]) (log *ledger.Log, hit bool, err error)
+//@   property C31
+//@   modifies c, published
+//@   ensures err != nil || parameters.DryRun ==> published == old(published) && len(c.atCommit) == len(old(c.atCommit))
+//@   ensures err == nil && !parameters.DryRun ==> published == old(published) + (old(c.hasTx) ? 0 : 1)
+//@   ensures c.hasTx == old(c.hasTx)
+
+//@ func (c *ControllerWithEvents) SaveAccountMetadata(ctx context.Context, parameters Parameters[SaveAccountMetadata]) (log *ledger.Log, hit bool, err error)
+//@   property C31
+//@   modifies c, published
+//@   ensures err != nil || parameters.DryRun ==> published == old(published) && len(c.atCommit) == len(old(c.atCommit))
+//@   ensures err == nil && !parameters.DryRun ==> published == old(published) + (old(c.hasTx) ? 0 : 1)
+//@   ensures c.hasTx == old(c.hasTx)
+
+//@ func (c *ControllerWithEvents) DeleteTransactionMetadata(ctx context.Context, parameters Parameters[DeleteTransactionMetadata]) (log *ledger.Log, hit bool, err error)
+//@   property C31
+//@   modifies c, published
+//@   ensures err != nil || parameters.DryRun ==> published == old(published) && len(c.atCommit) == len(old(c.atCommit))
+//@   ensures err == nil && !parameters.DryRun ==> published == old(published) + (old(c.hasTx) ? 0 : 1)
+//@   ensures c.hasTx == old(c.hasTx)
+
+//@ func (c *ControllerWithEvents) DeleteAccountMetadata(ctx context.Context, parameters Parameters[DeleteAccountMetadata]) (log *ledger.Log, hit bool, err error)
+//@   property C31
+//@   modifies c, published
+//@   ensures err != nil || parameters.DryRun ==> published == old(published) && len(c.atCommit) == len(old(c.atCommit))
+//@   ensures err == nil && !parameters.DryRun ==> published == old(published) + (old(c.hasTx) ? 0 : 1)
+//@   ensures c.hasTx == old(c.hasTx)
+
+//@ func (c *ControllerWithEvents) InsertSchema(ctx context.Context, parameters Parameters[InsertSchema]) (log *ledger.Log, ret *ledger.InsertedSchema, hit bool, err error)
+//@   property C31
+//@   modifies c, published
+//@   ensures err != nil || parameters.DryRun ==> published == old(published) && len(c.atCommit) == len(old(c.atCommit))
+//@   ensures err == nil && !parameters.DryRun ==> published == old(published) + (old(c.hasTx) ? 0 : 1)
+//@   ensures c.hasTx == old(c.hasTx)
+
+//@ func (c *ControllerWithEvents) BeginTX(ctx context.Context, options *sql.TxOptions) (r Controller, tx *bun.Tx, err error)
+//@   property C31
+//@   ensures published == old(published)
+//@   ensures err == nil ==> r.(*ControllerWithEvents) != nil && r.(*ControllerWithEvents).hasTx && len(r.(*ControllerWithEvents).atCommit) == 0
+
+//@ func (c *ControllerWithEvents) LockLedger(ctx context.Context) (r Controller, db bun.IDB, release func() error, err error)
+//@   property C31
+//@   ensures published == old(published)
+//@   ensures err == nil ==> r.(*ControllerWithEvents) != nil && r.(*ControllerWithEvents).hasTx == c.hasTx && len(r.(*ControllerWithEvents).atCommit) == 0
+//@   note LockLedger on a handle inside a transaction stays inside that transaction (storage/ledger/store.go LockLedger, case bun.Tx): the result must inherit hasTx
+
+//@ func (c *ControllerWithEvents) Commit(ctx context.Context) (err error)
+//@   property C31
+//@   modifies published
+//@   ensures err != nil ==> published == old(published)
+//@   ensures err == nil ==> published == old(published) + len(c.atCommit)
+//@   loop 1:
+//@     index k
+//@     invariant published == old(published) + k
+//@   fnparam f() ():
+//@     modifies published
+//@     ensures published == old(published) + 1
+
+//@ func (c *ControllerWithEvents) Rollback(ctx context.Context) (err error)
+//@   property C31
+//@   modifies c
+//@   ensures len(c.atCommit) == 0 && published == old(published) && c.hasTx == old(c.hasTx)
